@@ -150,6 +150,12 @@ func (g *gen) expr(depth int) *expr {
 		return &expr{k: "var", n: g.pickVar()}
 	case c < 8:
 		g.p.tags["add"] = true
+		if depth >= 1 && g.p.nin > 0 && g.r.Chance(1, 8) {
+			// two reads in one expression whose value depends on which happens first (Go: left to right)
+			g.p.tags["ioread"], g.p.tags["mul"], g.p.tags["ioread-pair"] = true, true, true
+			return &expr{k: "add", a: &expr{k: "mul", a: &expr{k: "ior", n: g.r.Intn(g.p.nin)}, b: &expr{k: "lit", n: 2 + g.r.Intn(8)}},
+				b: &expr{k: "ior", n: g.r.Intn(g.p.nin)}}
+		}
 		return &expr{k: "add", a: g.expr(depth - 1), b: g.expr(depth - 1)}
 	default:
 		g.p.tags["mul"] = true
